@@ -474,6 +474,8 @@ structure State where
   shardCount : Nat := 0
   /-- `leaderReady[shard of this cluster]` -/
   hb : Option HB := none
+  /-- `leaderEndpoints[shard of this cluster]`: 0 = none known (the empty string), else an index of a leader URL -/
+  leader : Nat := 0
   meter : Meter := {}
   /-- result of the last `SetLimit` (reported only) -/
   lastRet : Bool := false
@@ -484,6 +486,9 @@ inductive Op
   | schema (s : Schema)
   /-- `clientSets.sync` learnt the shard count -/
   | shards (n : Nat)
+  /-- `clientSets.sync` at time `now`: the server info could not be fetched (`fail`), or it says `n` shards and
+      publishes `leader` for the shard of this cluster (`none`: no endpoint published for that shard) -/
+  | sync (fail : Bool) (n : Nat) (leader : Option Nat) (now : Int)
   /-- one heartbeat outcome for the shard of this cluster (`other = true`: for another shard) at time `now` -/
   | hb (ok : Bool) (now : Int) (other : Bool)
   /-- `reconcile.updateGlobalCuntFlowControls` -/
@@ -521,6 +526,16 @@ def step (st : State) : Op → Except String State
       | .error e => .error e
       | .ok (l, stop) => .ok { st with cache := some { loc := l, remote := if stop then none else c.remote } }
   | .shards n => .ok { st with shardCount := n }
+  | .sync fail n leader now =>
+    if fail then .ok st
+    else
+      match leader with
+      | none => .ok { st with shardCount := n }
+      | some l =>
+        -- `if oldLeader != ep.Leader { leaderEndpoints.Store(…); setLeaderStatus(shard, leader, true) }`
+        if st.leader ≠ l then
+          .ok { st with shardCount := n, leader := l, hb := some (hbStep (st.hb.getD {}) true now) }
+        else .ok { st with shardCount := n }
   | .hb ok now other =>
     if other then .ok st
     else
@@ -605,6 +620,7 @@ structure Obs where
   ready : Bool := false
   ret : Bool := false
   remoteConfig : Option Item := none
+  leader : Nat := 0
   deriving DecidableEq, Repr, Inhabited
 
 def observe (cfg : Cfg) (st : State) : Obs :=
@@ -616,7 +632,7 @@ def observe (cfg : Cfg) (st : State) : Obs :=
     | .loc => st.cache.bind (·.loc.fc)
     | .remote => rlim
   let base : Obs := { choice := ch, lim := lim, rlim := rlim, ready := isReady st, ret := st.lastRet,
-                      remoteConfig := st.cache.bind (fun c => c.remote.bind (·.remoteConfig)) }
+                      remoteConfig := st.cache.bind (fun c => c.remote.bind (·.remoteConfig)), leader := st.leader }
   match gfc with
   | none => base
   | some (.empty _) => { base with wkind := 1 }
